@@ -76,7 +76,11 @@ theorem visitE_kind_frag {cfg : Config} {e : Expr} {n : Nat} {e' : Expr} {D : Li
   | subscript => vopen h; vclose h; obtain ⟨_, _, _, _, _, _, _, _, rfl, -, -⟩ := h; exact ⟨rfl, rfl⟩
   | call => vopen h; vclose h; obtain ⟨_, _, _, _, _, _, _, _, _, _, _, _, rfl, -, -⟩ := h; exact ⟨rfl, rfl⟩
   | unary => vopen h; vclose h; obtain ⟨_, _, _, _, rfl, -, -⟩ := h; exact ⟨rfl, rfl⟩
-  | binop => vopen h; vclose h; obtain ⟨_, _, _, _, _, _, _, _, rfl, -, -⟩ := h; exact ⟨rfl, rfl⟩
+  | binop =>
+    simp only [visitE] at h
+    split at h
+    · simp at h
+    · vopen h; vclose h; obtain ⟨_, _, _, _, _, _, _, _, rfl, -, -⟩ := h; exact ⟨rfl, rfl⟩
   | compare i l ops rs =>
     simp only [visitE] at h
     split at h
